@@ -23,6 +23,7 @@ import Restful.Lemmas.RouteUnique
 import Restful.Lemmas.Classify
 import Restful.Lemmas.TieImpScore
 import Restful.Lemmas.TieImpMatch
+import Restful.Lemmas.TieImpTemplate
 namespace Restful
 namespace Props
 variable (E : ReEnv)
@@ -593,3 +594,4 @@ end Restful
 -- translation (tools/goimp, Gen/Imp.lean, regenerated on every run):
 -- also: Restful.TieImp.T2.webservice_score
 -- also: Restful.TieImp.match_tokens
+-- also: Restful.TieImp.template_to_regex
